@@ -582,6 +582,9 @@ CORPUS = [
     _c("a = 1\nb = x\n", ["b = pre\\$a$(a)\n", "b = \"\\$5 and $a\"\n"], 2),
     # a backslash directly in front of a line break inside a value: printed escaped, so saving and re-loading keeps it
     _c("s = None\n  .type = str\nt = a\n", ["s = \"tar -x \\\\\n  -f data.tar\"\nt = 'p\\\\\nq' \"r\\\\\"\n"], 3),
+    # a value that is one quoted backslash at the end of its line, another definition after it (a quoted lone backslash
+    # is no continuation mark: saving and re-loading keeps both definitions)
+    _c("sep = \"/\"\n  .type = str\nn = 1\n  .type = int\n", ["n = 4\nsep = \"\\\\\"\n"], 2),
     # deprecated: outside the domain (hidden in the printed text by design)
     _c("a = 1\n  .deprecated = True\nb = 2\n", ["a = 3\n"], 1),
 ]
@@ -602,9 +605,65 @@ def match_finding(finding, failure):
         return False
 
 
+class NoSourceStable(vlib.Stream):
+    """'Fetching with no source equals fetching M', over a sequence of calls: the result of M.fetch() belongs to the caller
+    (the GUI index edits it in place), so emptying it, or resetting a scope through interface.index, leaves later
+    M.fetch(), M.fetch(sources=[]) and M.fetch(source=M) as they were.  Oracle only."""
+    name = "no_source_stable"
+    cluster = "Idem"
+
+    def __init__(self, ctx):
+        super().__init__(ctx)
+        self.fp = vlib.import_freephil()
+
+    def cases(self, rng, tier):
+        for i in range(150 if tier == "quick" else 1500):
+            c = gen_case2(rng, floats=False, variables=False, dup=False, max_sources=1, profile="shape")
+            yield {"m": c["m"]}
+
+    def impl(self, case):
+        fp = self.fp
+        with warnings.catch_warnings():
+            warnings.simplefilter("ignore")
+            try:
+                m = fp.parse(input_string=case["m"])
+                first = m.fetch()
+                a = first.as_str()
+                viam = m.fetch(source=m).as_str()
+            except (RuntimeError, fp.Sorry):
+                return ["refused"]
+            del first.objects[:]                      # the caller's copy, edited in place
+            try:
+                from freephil import interface
+                idx = interface.index(master_phil=m)
+                names = [o.name for o in m.objects if o.is_scope and not o.is_disabled and not o.multiple]
+                if names:
+                    idx.reset_scope(names[0])
+            except Exception:  # noqa  (untyped definitions: the index refuses the master)
+                pass
+            b = m.fetch().as_str()
+            c = m.fetch(sources=[]).as_str()
+            d = m.fetch(source=m).as_str()
+        return ["ok", a == b, b == c, d == viam]
+
+    def requests(self, case, o):
+        return []
+
+    def model(self, case, replies, o):
+        return o
+
+    def prop(self, case, o):
+        if o[0] == "ok" and o[1:] != [True, True, True]:
+            return "after the result of M.fetch() was edited in place: M.fetch() unchanged %s, equals M.fetch(sources=[]) %s, M.fetch(M) unchanged %s" % tuple(o[1:])
+        return None
+
+    def tag(self, case, o):
+        return o[0]
+
+
 SPEC = {
     "clusters": ["Idem"],
-    "streams": [Cycles],
+    "streams": [Cycles, NoSourceStable],
     "rule": "seeded grammar masters of the fetch checks (7-name pool; every built-in type incl. untyped, int/ints with bounds, choice "
             "single/multi, float/floats in one case of ten; defaults in canonical and non-canonical spelling - yes/1/0 for bool, 3*2 "
             "for int, 1,2 for ints, unquoted strings; .multiple/.optional in all combinations incl. multiples nested in multiple scopes; "
